@@ -23,14 +23,27 @@ import (
 //	cidr     A.in_cidr(S)    (A an ipaddress, S a string literal in Name)
 //	starts   A.startsWith(B)
 //	size     size(A)         (list, map or string) -> int
+//
+// Kinds added for C25 (all additive):
+//
+//	index    also A[B] with A a list and B an int
+//	sub, mul, div, mod   A - B, A * B, A / B, A % B (checked integer arithmetic, IEEE doubles, timestamp/duration)
+//	ite      Args[0] ? Args[1] : Args[2]
+//	list     [Args...]       list literal
+//	sel      A.Name          field selection on a map (same as A["Name"])
+//	has      has(A.Name)     key presence test on a map
+//	contains A.contains(B), ends  A.endsWith(B)
+//	lit      additionally T = ipaddress (ipaddress("...")) and T = null; int/uint literals may carry
+//	         their value as a decimal string in V (values beyond 2^53 survive a JSON round trip that way)
 type Expr struct {
-	Kind string `json:"k"`
-	T    string `json:"t,omitempty"`
-	V    any    `json:"v,omitempty"`
-	Name string `json:"name,omitempty"`
-	Op   string `json:"op,omitempty"`
-	A    *Expr  `json:"a,omitempty"`
-	B    *Expr  `json:"b,omitempty"`
+	Kind string  `json:"k"`
+	T    string  `json:"t,omitempty"`
+	V    any     `json:"v,omitempty"`
+	Name string  `json:"name,omitempty"`
+	Op   string  `json:"op,omitempty"`
+	A    *Expr   `json:"a,omitempty"`
+	B    *Expr   `json:"b,omitempty"`
+	Args []*Expr `json:"args,omitempty"`
 }
 
 func Lit(t string, v any) *Expr       { return &Expr{Kind: "lit", T: t, V: v} }
@@ -39,6 +52,28 @@ func Not(a *Expr) *Expr               { return &Expr{Kind: "not", A: a} }
 func And(a, b *Expr) *Expr            { return &Expr{Kind: "and", A: a, B: b} }
 func Or(a, b *Expr) *Expr             { return &Expr{Kind: "or", A: a, B: b} }
 func Cmp(op string, a, b *Expr) *Expr { return &Expr{Kind: "cmp", Op: op, A: a, B: b} }
+
+// Bin builds a binary node of the given kind (in, index, add, sub, mul, div, mod, starts, contains, ends).
+func Bin(kind string, a, b *Expr) *Expr { return &Expr{Kind: kind, A: a, B: b} }
+func Ite(c, a, b *Expr) *Expr           { return &Expr{Kind: "ite", Args: []*Expr{c, a, b}} }
+func List(items ...*Expr) *Expr         { return &Expr{Kind: "list", Args: items} }
+func Sel(a *Expr, field string) *Expr   { return &Expr{Kind: "sel", A: a, Name: field} }
+func Has(a *Expr, field string) *Expr   { return &Expr{Kind: "has", A: a, Name: field} }
+func Cidr(a *Expr, cidr string) *Expr   { return &Expr{Kind: "cidr", A: a, Name: cidr} }
+func Size(a *Expr) *Expr                { return &Expr{Kind: "size", A: a} }
+
+// Walk calls f on every node of the expression (pre-order).
+func (e *Expr) Walk(f func(*Expr)) {
+	if e == nil {
+		return
+	}
+	f(e)
+	e.A.Walk(f)
+	e.B.Walk(f)
+	for _, a := range e.Args {
+		a.Walk(f)
+	}
+}
 
 // CEL renders the expression as CEL source.
 func (e *Expr) CEL() string {
@@ -50,7 +85,7 @@ func (e *Expr) CEL() string {
 		case "int":
 			return fmt.Sprint(toInt64(e.V))
 		case "uint":
-			return fmt.Sprint(uint64(toInt64(e.V))) + "u"
+			return fmt.Sprint(toUint64(e.V)) + "u"
 		case "double":
 			s := strconv.FormatFloat(toFloat(e.V), 'f', -1, 64)
 			if !strings.ContainsAny(s, ".") {
@@ -63,6 +98,10 @@ func (e *Expr) CEL() string {
 			return "duration(" + strconv.Quote(fmt.Sprint(e.V)) + ")"
 		case "timestamp":
 			return "timestamp(" + strconv.Quote(fmt.Sprint(e.V)) + ")"
+		case "ipaddress":
+			return "ipaddress(" + strconv.Quote(fmt.Sprint(e.V)) + ")"
+		case "null":
+			return "null"
 		}
 		return "?lit"
 	case "var":
@@ -87,8 +126,56 @@ func (e *Expr) CEL() string {
 		return e.A.CEL() + ".startsWith(" + e.B.CEL() + ")"
 	case "size":
 		return "size(" + e.A.CEL() + ")"
+	case "sub":
+		return "(" + e.A.CEL() + " - " + e.B.CEL() + ")"
+	case "mul":
+		return "(" + e.A.CEL() + " * " + e.B.CEL() + ")"
+	case "div":
+		return "(" + e.A.CEL() + " / " + e.B.CEL() + ")"
+	case "mod":
+		return "(" + e.A.CEL() + " % " + e.B.CEL() + ")"
+	case "ite":
+		if len(e.Args) != 3 {
+			return "?ite"
+		}
+		return "(" + e.Args[0].CEL() + " ? " + e.Args[1].CEL() + " : " + e.Args[2].CEL() + ")"
+	case "list":
+		parts := make([]string, len(e.Args))
+		for i, a := range e.Args {
+			parts[i] = a.CEL()
+		}
+		return "[" + strings.Join(parts, ", ") + "]"
+	case "sel":
+		return e.A.CEL() + "." + e.Name
+	case "has":
+		return "has(" + e.A.CEL() + "." + e.Name + ")"
+	case "contains":
+		return e.A.CEL() + ".contains(" + e.B.CEL() + ")"
+	case "ends":
+		return e.A.CEL() + ".endsWith(" + e.B.CEL() + ")"
 	}
 	return "?"
+}
+
+// LitInt64 and LitUint64 return the value of an int / uint literal (V may be a
+// Go integer, a float64 after a JSON round trip, or a decimal string).
+func LitInt64(v any) int64   { return toInt64(v) }
+func LitUint64(v any) uint64 { return toUint64(v) }
+
+func toUint64(v any) uint64 {
+	switch x := v.(type) {
+	case uint64:
+		return x
+	case string:
+		n, _ := strconv.ParseUint(x, 10, 64)
+		return n
+	case float64:
+		if x < 0 {
+			return 0
+		}
+		return uint64(x)
+	}
+	return uint64(toInt64(v))
 }
 
 func toInt64(v any) int64 {
@@ -101,6 +188,9 @@ func toInt64(v any) int64 {
 		return int64(x)
 	case uint64:
 		return int64(x)
+	case string:
+		n, _ := strconv.ParseInt(x, 10, 64)
+		return n
 	}
 	return 0
 }
